@@ -234,7 +234,7 @@ theorem aggTotal_replay (cfg : Cfg) (m : Nat) (t : VType) (K : Key) (ht : typeOf
           subst hacc; simp [VType.isCounterLike] at hc
         rw [seriesOf_upd_other _ _ _ _ _ hm, ih]
       · exact ih
-    | sample m' s v keep =>
+    | sample m' s v keep now =>
       simp only [incSum]
       split
       · rename_i hacc
@@ -245,7 +245,7 @@ theorem aggTotal_replay (cfg : Cfg) (m : Nat) (t : VType) (K : Key) (ht : typeOf
         rw [seriesOf_upd_other _ _ _ _ _ hm, ih]
       · exact ih
     | get m' s => simp only [incSum]; split <;> exact ih
-    | agg ms => simp only [incSum]; split <;> exact ih
+    | agg ms now => simp only [incSum]; split <;> exact ih
 
 /-- gauge metric: what is stored for a source is the last value set for an equal source -/
 theorem lookup_replay_gauge (cfg : Cfg) (m : Nat) (s : Source) (ht : typeOf cfg m = some .gauge)
@@ -275,7 +275,7 @@ theorem lookup_replay_gauge (cfg : Cfg) (m : Nat) (s : Source) (ht : typeOf cfg 
         have hk' : (m', s') ≠ (m, s) := fun hh => hm (Prod.mk.inj hh).1
         rw [lookup_upd]; simp [hk', ih]
       · exact ih
-    | sample m' s' v keep =>
+    | sample m' s' v keep now =>
       simp only [lastSet]
       split
       · rename_i hacc
@@ -286,7 +286,7 @@ theorem lookup_replay_gauge (cfg : Cfg) (m : Nat) (s : Source) (ht : typeOf cfg 
         rw [lookup_upd]; simp [hk', ih]
       · exact ih
     | get m' s' => simp only [lastSet]; split <;> exact ih
-    | agg ms => simp only [lastSet]; split <;> exact ih
+    | agg ms now => simp only [lastSet]; split <;> exact ih
 
 /-- the series of a metric are exactly the distinct sources recorded against, in order of
     first appearance (every operation accepted) -/
@@ -301,7 +301,7 @@ theorem srcKeys_replay (cfg : Cfg) (m : Nat) (h : List Op) (hacc : h.all (accept
     simp only [replay, stepSt, ha, if_true]
     have key : ∀ (m' : Nat) (s : Source) (f : Option Cell → Cell),
         srcKeys m (upd (m', s) f (replay cfg h)) =
-          firstOcc (if m' = m then srcs m h ++ [s] else srcs m h) := by
+          firstOcc (if m' = m then (srcs m h).reverse ++ [s] else (srcs m h).reverse) := by
       intro m' s f
       rw [srcKeys_upd, ih]
       by_cases hm : m' = m
@@ -310,9 +310,9 @@ theorem srcKeys_replay (cfg : Cfg) (m : Nat) (h : List Op) (hacc : h.all (accept
     cases op with
     | inc m' s a => simpa [distinctSrcs, srcs, apply_ite] using key m' s _
     | set m' s v => simpa [distinctSrcs, srcs, apply_ite] using key m' s _
-    | sample m' s v keep => simpa [distinctSrcs, srcs, apply_ite] using key m' s _
+    | sample m' s v keep now => simpa [distinctSrcs, srcs, apply_ite] using key m' s _
     | get m' s => simpa [distinctSrcs, srcs] using ih
-    | agg ms => simpa [distinctSrcs, srcs] using ih
+    | agg ms now => simpa [distinctSrcs, srcs] using ih
 
 /-! ### sorting -/
 
@@ -578,10 +578,12 @@ theorem withKey_map_fst (K : Key) (ser : List (Source × Cell)) :
     rw [withKey_cons]
     by_cases h : s.key = K <;> simp [h, ih, List.filter_cons]
 
-theorem gauge_entry (cfg : Cfg) (m : Nat) (ht : typeOf cfg m = some .gauge) (h : List Op)
+/-- a key that a single recorded source rolls up to: its sub-list of the series is that
+    source's entry -/
+theorem single_source_withKey (cfg : Cfg) (m : Nat) (h : List Op)
     (hacc : h.all (accepts cfg) = true) (K : Key) (s : Source)
     (hone : (distinctSrcs m h).filter (fun s => s.key = K) = [s]) :
-    some (aggTotal K (seriesOf m (replay cfg h))) = lastSet m s h := by
+    ∃ c, withKey K (seriesOf m (replay cfg h)) = [(s, c)] ∧ lookup (m, s) (replay cfg h) = some c := by
   have hk := srcKeys_replay cfg m h hacc
   have hmap := withKey_map_fst K (seriesOf m (replay cfg h))
   rw [srcKeys_eq, hk, hone] at hmap
@@ -591,7 +593,6 @@ theorem gauge_entry (cfg : Cfg) (m : Nat) (ht : typeOf cfg m = some .gauge) (h :
   have hin := lookup_some_mem m s c _ hc
   have hin2 : (s, c) ∈ withKey K (seriesOf m (replay cfg h)) := by
     simp only [withKey, List.mem_filter]; exact ⟨hin, hsmem.2⟩
-  -- the key's sub-list has exactly one element
   have hlen : (withKey K (seriesOf m (replay cfg h))).length = 1 := by
     have := congrArg List.length hmap; simpa using this
   match hw : withKey K (seriesOf m (replay cfg h)), hlen with
@@ -599,29 +600,183 @@ theorem gauge_entry (cfg : Cfg) (m : Nat) (ht : typeOf cfg m = some .gauge) (h :
     rw [hw] at hin2
     simp only [List.mem_singleton] at hin2
     subst hin2
-    have hl := lookup_replay_gauge cfg m s ht h
-    rw [hc] at hl
-    cases hls : lastSet m s h with
-    | none => rw [hls] at hl; simp at hl
-    | some v =>
-      rw [hls] at hl
-      simp only [Option.map_some, Option.some.injEq] at hl
+    exact ⟨c, rfl, hc⟩
+
+theorem gauge_entry (cfg : Cfg) (m : Nat) (ht : typeOf cfg m = some .gauge) (h : List Op)
+    (hacc : h.all (accepts cfg) = true) (K : Key) (s : Source)
+    (hone : (distinctSrcs m h).filter (fun s => s.key = K) = [s]) :
+    some (aggTotal K (seriesOf m (replay cfg h))) = lastSet m s h := by
+  obtain ⟨c, hw, hc⟩ := single_source_withKey cfg m h hacc K s hone
+  have hl := lookup_replay_gauge cfg m s ht h
+  rw [hc] at hl
+  cases hls : lastSet m s h with
+  | none => rw [hls] at hl; simp at hl
+  | some v =>
+    rw [hls] at hl
+    simp only [Option.map_some, Option.some.injEq] at hl
+    subst hl
+    simp [aggTotal, hw, sumCells, cellNum]
+
+/-! ### reservoirs: `last_update` is the time of the last retained sample -/
+
+/-- what the store holds for (`m`, `s`) of a percentile metric, against the history -/
+def ResInv (cap : Nat) (m : Nat) (s : Source) (h : List Op) : Option Cell → Prop
+  | none => sampleCount m s h = 0 ∧ lastRetain cap m s h = none
+  | some (.res _ n l) => n = sampleCount m s h ∧ ∀ t, lastRetain cap m s h = some t → l = t
+  | some (.num _) => False
+
+theorem lookup_replay_pct (cfg : Cfg) (m : Nat) (s : Source) (t : VType) (ht : typeOf cfg m = some t)
+    (hp : t.isPct = true) (h : List Op) :
+    ResInv cfg.cap m s h (lookup (m, s) (replay cfg h)) := by
+  induction h with
+  | nil => simp [replay, lookup, ResInv, sampleCount, lastRetain]
+  | cons op h ih =>
+    simp only [replay, stepSt]
+    cases op with
+    | sample m' s' v keep now =>
+      by_cases hk : m' = m ∧ s' = s
+      · obtain ⟨rfl, rfl⟩ := hk
+        simp only [accepts, ht, hp, if_true, lookup_upd]
+        cases hl : lookup (m', s') (replay cfg h) with
+        | none =>
+          rw [hl] at ih
+          obtain ⟨h0, hn⟩ := ih
+          simp only [sampleCell, sampleInto]
+          split
+          · rename_i hc0; simp [ResInv, sampleCount, lastRetain, h0, hc0]
+          · split
+            · rename_i hk; simp [ResInv, sampleCount, lastRetain, h0, hk]
+            · rename_i hc hk
+              simp [ResInv, sampleCount, lastRetain, h0, hk, hn, hc]
+        | some c =>
+          rw [hl] at ih
+          cases c with
+          | num v' => exact absurd ih id
+          | res d n l =>
+            obtain ⟨hn, hlast⟩ := ih
+            simp only [sampleCell, sampleInto]
+            split
+            · rename_i hc
+              have : sampleCount m' s' h < cfg.cap := by omega
+              simp only [ResInv, sampleCount, lastRetain, and_self, if_true, this, true_or]
+              exact ⟨by omega, fun t ht => by simpa using ht⟩
+            · split
+              · rename_i hk
+                simp only [ResInv, sampleCount, lastRetain, and_self, if_true, hk, or_true]
+                exact ⟨by omega, fun t ht => by simpa using ht⟩
+              · rename_i hc hk
+                have h1 : ¬ sampleCount m' s' h < cfg.cap := by omega
+                simp only [ResInv, sampleCount, lastRetain, and_self, if_true, h1, hk, false_or,
+                  Bool.false_eq_true, if_false]
+                exact ⟨by omega, hlast⟩
+      · have hk' : (m', s') ≠ (m, s) := by
+          intro hh; apply hk; exact ⟨(Prod.mk.inj hh).1, (Prod.mk.inj hh).2⟩
+        have e1 : sampleCount m s (.sample m' s' v keep now :: h) = sampleCount m s h := by
+          simp [sampleCount, hk]
+        have e2 : lastRetain cfg.cap m s (.sample m' s' v keep now :: h) = lastRetain cfg.cap m s h := by
+          simp [lastRetain, hk]
+        have : ∀ c, ResInv cfg.cap m s h c → ResInv cfg.cap m s (.sample m' s' v keep now :: h) c := by
+          intro c hc
+          cases c with
+          | none => simpa [ResInv, e1, e2] using hc
+          | some c => cases c <;> simpa [ResInv, e1, e2] using hc
+        split
+        · rw [lookup_upd]; simp only [hk', if_false]; exact this _ ih
+        · exact this _ ih
+    | inc m' s' a =>
+      have : ∀ c, ResInv cfg.cap m s h c → ResInv cfg.cap m s (.inc m' s' a :: h) c := by
+        intro c hc
+        cases c with
+        | none => simpa [ResInv, sampleCount, lastRetain] using hc
+        | some c => cases c <;> simpa [ResInv, sampleCount, lastRetain] using hc
+      split
+      · rename_i hacc
+        have hm : m' ≠ m := by
+          intro hm; subst hm
+          simp only [accepts, ht] at hacc
+          cases t <;> simp [VType.isCounterLike, VType.isPct] at hp hacc
+        have hk' : (m', s') ≠ (m, s) := fun hh => hm (Prod.mk.inj hh).1
+        rw [lookup_upd]; simp only [hk', if_false]; exact this _ ih
+      · exact this _ ih
+    | set m' s' v =>
+      have : ∀ c, ResInv cfg.cap m s h c → ResInv cfg.cap m s (.set m' s' v :: h) c := by
+        intro c hc
+        cases c with
+        | none => simpa [ResInv, sampleCount, lastRetain] using hc
+        | some c => cases c <;> simpa [ResInv, sampleCount, lastRetain] using hc
+      split
+      · rename_i hacc
+        have hm : m' ≠ m := by
+          intro hm; subst hm
+          simp only [accepts, ht, decide_eq_true_eq] at hacc
+          subst hacc; simp [VType.isPct] at hp
+        have hk' : (m', s') ≠ (m, s) := fun hh => hm (Prod.mk.inj hh).1
+        rw [lookup_upd]; simp only [hk', if_false]; exact this _ ih
+      · exact this _ ih
+    | get m' s' =>
+      have : ∀ c, ResInv cfg.cap m s h c → ResInv cfg.cap m s (.get m' s' :: h) c := by
+        intro c hc
+        cases c with
+        | none => simpa [ResInv, sampleCount, lastRetain] using hc
+        | some c => cases c <;> simpa [ResInv, sampleCount, lastRetain] using hc
+      split <;> exact this _ ih
+    | agg ms now =>
+      have : ∀ c, ResInv cfg.cap m s h c → ResInv cfg.cap m s (.agg ms now :: h) c := by
+        intro c hc
+        cases c with
+        | none => simpa [ResInv, sampleCount, lastRetain] using hc
+        | some c => cases c <;> simpa [ResInv, sampleCount, lastRetain] using hc
+      split <;> exact this _ ih
+
+/-- a single source that retained a sample within MAX_AGG_AGE: the aggregate uses exactly its
+    reservoir, and reports the percentiles of its retained samples -/
+theorem pct_entry (cfg : Cfg) (hwf : cfgWF cfg = true) (m : Nat) (t : VType) (ht : typeOf cfg m = some t)
+    (hp : t.isPct = true) (h : List Op) (hacc : h.all (accepts cfg) = true) (K : Key) (s : Source)
+    (now : Nat) (hone : (distinctSrcs m h).filter (fun s => s.key = K) = [s])
+    (hrec : retainedRecently cfg.cap m s now h = true) :
+    pctCount now K (seriesOf m (replay cfg h)) = 1 ∧
+    pctsOk cfg.pcts (isort (mergedData K (seriesOf m (replay cfg h))))
+      (aggPcts cfg.pcts now K (seriesOf m (replay cfg h))) = true ∧
+    aggPcts cfg.pcts now K (seriesOf m (replay cfg h)) =
+      cfg.pcts.map (fun pq => pctNum (isort (mergedData K (seriesOf m (replay cfg h)))) pq.1 pq.2) := by
+  obtain ⟨c, hw, hc⟩ := single_source_withKey cfg m h hacc K s hone
+  have hinv := lookup_replay_pct cfg m s t ht hp h
+  rw [hc] at hinv
+  unfold retainedRecently at hrec
+  cases hlr : lastRetain cfg.cap m s h with
+  | none => rw [hlr] at hrec; cases hrec
+  | some tr =>
+    rw [hlr] at hrec
+    simp only [decide_eq_true_eq] at hrec
+    cases c with
+    | num v => exact absurd hinv id
+    | res d n l =>
+      have hl : l = tr := hinv.2 tr hlr
       subst hl
-      simp [aggTotal, hw, sumCells, cellNum]
+      have hfresh : freshOf now K (seriesOf m (replay cfg h)) = [(s, .res d n l)] := by
+        simp [freshOf, hw, cellFresh, hrec]
+      have hcount : pctCount now K (seriesOf m (replay cfg h)) = 1 := by simp [pctCount, hfresh]
+      refine ⟨hcount, ?_, ?_⟩ <;>
+      have hdata : freshData now K (seriesOf m (replay cfg h)) = mergedData K (seriesOf m (replay cfg h)) := by
+        simp [freshData, mergedData, hfresh, hw]
+      · simp only [aggPcts, hcount, if_true, hdata]
+        exact pctsOk_model cfg.pcts hwf _
+      · simp only [aggPcts, hcount, if_true, hdata]
 
 theorem entryOk_model (cfg : Cfg) (hwf : cfgWF cfg = true) (h : List Op)
-    (hacc : h.all (accepts cfg) = true) (m : Nat) (t : VType) (ht : typeOf cfg m = some t)
-    (e : Entry) (he : e ∈ entriesOf cfg t (seriesOf m (replay cfg h))) :
-    entryOk cfg h m t e = true := by
+    (hacc : h.all (accepts cfg) = true) (now : Nat) (m : Nat) (t : VType) (ht : typeOf cfg m = some t)
+    (e : Entry) (he : e ∈ entriesOf cfg now t (seriesOf m (replay cfg h))) :
+    entryOk cfg h now m t e = true := by
   simp only [entriesOf, List.mem_map] at he
   obtain ⟨K, _, rfl⟩ := he
   by_cases hp : t.isPct = true
-  · simp only [hp, if_true, entryOk, Bool.true_and]
+  · simp only [hp, if_true, entryOk]
     split
-    · rename_i hcount
-      have h1 : aggCount K (seriesOf m (replay cfg h)) = 1 := by simpa using hcount
-      simp only [aggPcts, h1, if_true]
-      exact pctsOk_model cfg.pcts hwf _
+    · rename_i s hone
+      split
+      · rename_i hrec
+        exact (pct_entry cfg hwf m t ht hp h hacc K s now hone hrec).2.1
+      · rfl
     · rfl
   · simp only [hp, Bool.false_eq_true, if_false]
     cases t with
@@ -644,9 +799,9 @@ theorem entryOk_model (cfg : Cfg) (hwf : cfgWF cfg = true) (h : List Op)
 
 /-! ### the whole aggregate observation, and the trace -/
 
-theorem mem_aggOut (cfg : Cfg) (ms : List Nat) (st : Store) (m : Nat) (es : List Entry)
-    (h : (m, es) ∈ aggOut cfg ms st) :
-    ∃ t, typeOf cfg m = some t ∧ es = entriesOf cfg t (seriesOf m st) := by
+theorem mem_aggOut (cfg : Cfg) (ms : List Nat) (now : Nat) (st : Store) (m : Nat) (es : List Entry)
+    (h : (m, es) ∈ aggOut cfg ms now st) :
+    ∃ t, typeOf cfg m = some t ∧ es = entriesOf cfg now t (seriesOf m st) := by
   simp only [aggOut, List.mem_filterMap] at h
   obtain ⟨m', _, hg⟩ := h
   split at hg
@@ -658,9 +813,9 @@ theorem mem_aggOut (cfg : Cfg) (ms : List Nat) (st : Store) (m : Nat) (es : List
     · cases hg
   · cases hg
 
-theorem firstBadEntry_none (cfg : Cfg) (h : List Op) (l : List (Nat × List Entry))
-    (hl : ∀ m es, (m, es) ∈ l → ∀ t, typeOf cfg m = some t → ∀ e ∈ es, entryOk cfg h m t e = true) :
-    firstBadEntry cfg h l = none := by
+theorem firstBadEntry_none (cfg : Cfg) (h : List Op) (now : Nat) (l : List (Nat × List Entry))
+    (hl : ∀ m es, (m, es) ∈ l → ∀ t, typeOf cfg m = some t → ∀ e ∈ es, entryOk cfg h now m t e = true) :
+    firstBadEntry cfg h now l = none := by
   induction l with
   | nil => rfl
   | cons x xs ih =>
@@ -670,7 +825,7 @@ theorem firstBadEntry_none (cfg : Cfg) (h : List Op) (l : List (Nat × List Entr
     split
     · exact ih
     · rename_i t ht
-      have : es.find? (fun e => !entryOk cfg h m t e) = none := by
+      have : es.find? (fun e => !entryOk cfg h now m t e) = none := by
         rw [List.find?_eq_none]
         intro e he
         simp [hl m es List.mem_cons_self t ht e he]
@@ -714,11 +869,11 @@ theorem mem_metricsOf (m : Nat) (s : Source) (st : Store) (h : s ∈ srcKeys m s
       simp only [List.map_cons, List.mem_cons]
       right; exact ih h
 
-theorem findEntries_aggOut (cfg : Cfg) (ms : List Nat) (st : Store) (m : Nat) (t : VType)
+theorem findEntries_aggOut (cfg : Cfg) (ms : List Nat) (now : Nat) (st : Store) (m : Nat) (t : VType)
     (hm : m ∈ metricsOf st) (hms : m ∈ ms) (ht : typeOf cfg m = some t) :
-    findEntries (aggOut cfg ms st) m = entriesOf cfg t (seriesOf m st) := by
+    findEntries (aggOut cfg ms now st) m = entriesOf cfg now t (seriesOf m st) := by
   unfold findEntries aggOut
-  rw [find_filterMap (metricsOf st) _ ?_ m hm (entriesOf cfg t (seriesOf m st)) ?_]
+  rw [find_filterMap (metricsOf st) _ ?_ m hm (entriesOf cfg now t (seriesOf m st)) ?_]
   · intro x y hxy
     split at hxy
     · split at hxy
@@ -727,9 +882,9 @@ theorem findEntries_aggOut (cfg : Cfg) (ms : List Nat) (st : Store) (m : Nat) (t
     · cases hxy
   · simp [hms, ht]
 
-theorem entry_key_any (cfg : Cfg) (t : VType) (ser : List (Source × Cell)) (s : Source)
+theorem entry_key_any (cfg : Cfg) (now : Nat) (t : VType) (ser : List (Source × Cell)) (s : Source)
     (hs : s ∈ ser.map (·.1)) :
-    (entriesOf cfg t ser).any (fun e => e.key = s.key) = true := by
+    (entriesOf cfg now t ser).any (fun e => e.key = s.key) = true := by
   simp only [entriesOf, List.any_map, List.any_eq_true, Function.comp]
   refine ⟨s.key, ?_, ?_⟩
   · unfold aggKeys
@@ -739,20 +894,20 @@ theorem entry_key_any (cfg : Cfg) (t : VType) (ser : List (Source × Cell)) (s :
     exact ⟨e, he, rfl⟩
   · split <;> simp [Entry.key]
 
-theorem covered_model (cfg : Cfg) (h : List Op) (hacc : h.all (accepts cfg) = true) (ms : List Nat) :
-    covered cfg h ms (aggOut cfg ms (replay cfg h)) = true := by
+theorem covered_model (cfg : Cfg) (h : List Op) (hacc : h.all (accepts cfg) = true) (ms : List Nat)
+    (now : Nat) : covered cfg h ms (aggOut cfg ms now (replay cfg h)) = true := by
   unfold covered
   rw [List.all_eq_true]
   intro m hm
   have hk := srcKeys_replay cfg m h hacc
   have main : ∀ t, typeOf cfg m = some t →
       ((distinctSrcs m h).all fun s =>
-        (findEntries (aggOut cfg ms (replay cfg h)) m).any fun e => e.key = s.key) = true := by
+        (findEntries (aggOut cfg ms now (replay cfg h)) m).any fun e => e.key = s.key) = true := by
     intro t ht
     rw [List.all_eq_true]
     intro s hs
     have hsk : s ∈ srcKeys m (replay cfg h) := by rw [hk]; exact hs
-    rw [findEntries_aggOut cfg ms _ m t (mem_metricsOf m s _ hsk) hm ht]
+    rw [findEntries_aggOut cfg ms now _ m t (mem_metricsOf m s _ hsk) hm ht]
     apply entry_key_any
     rw [srcKeys_eq]; exact hsk
   split
@@ -775,7 +930,7 @@ theorem specObs_model (cfg : Cfg) (hwf : cfgWF cfg = true) (h : List Op)
   cases op with
   | inc m s a => simp [obsOf, ha, specObs, metricOf, hser m]
   | set m s v => simp [obsOf, ha, specObs, metricOf, hser m]
-  | sample m s v keep => simp [obsOf, ha, specObs, metricOf, hser m]
+  | sample m s v keep now => simp [obsOf, ha, specObs, metricOf, hser m]
   | get m s =>
     simp only [specObs]
     split
@@ -784,17 +939,18 @@ theorem specObs_model (cfg : Cfg) (hwf : cfgWF cfg = true) (h : List Op)
       simp only [obsOf, ha, if_true, hl]
       cases hls : lastSet m s (.get m s :: h) <;> simp
     · rfl
-  | agg ms =>
+  | agg ms now =>
     simp only [obsOf, ha, if_true, specObs]
-    have hb : firstBadEntry cfg (.agg ms :: h) (aggOut cfg ms (replay cfg (.agg ms :: h))) = none := by
+    have hb : firstBadEntry cfg (.agg ms now :: h) now
+        (aggOut cfg ms now (replay cfg (.agg ms now :: h))) = none := by
       apply firstBadEntry_none
       intro m es hmem t ht e he
-      obtain ⟨t', ht', rfl⟩ := mem_aggOut cfg ms _ m es hmem
+      obtain ⟨t', ht', rfl⟩ := mem_aggOut cfg ms now _ m es hmem
       have := typeOf_unique cfg m t t' ht ht'
       subst this
-      exact entryOk_model cfg hwf _ hacc' m t ht e he
+      exact entryOk_model cfg hwf _ hacc' now m t ht e he
     rw [hb]
-    simp [covered_model cfg _ hacc' ms]
+    simp [covered_model cfg _ hacc' ms now]
 
 theorem specGo_model (cfg : Cfg) (hwf : cfgWF cfg = true) :
     ∀ (ops : List Op) (h : List Op) (idx : Nat), h.all (accepts cfg) = true →
